@@ -43,7 +43,7 @@ ASSUMPTIONS = ["the reclamation bound is circuit_timeout + (hops + 2) x (max_tim
 REACH = ["dropped:destroy", "dropped:CreatedPayload", "dropped:ExtendedPayload", "dropped:ExtendPayload", "dropped:CreatePayload", "dropped:relayed_handshake",
          "reclaimed_by_timeout_only", "exit_transports_closed", "originator_crash", "join_refused_at_limit",
          "relay_early_over_budget_dropped", "exit_wants_unbuildable_tunnels", "chatty_outside_peer", "phase:half", "phase:ready", "phase:transfer",
-         "phase:first_packet", "teardown_right_behind_first_packet", "pool_node_wants_tunnels", "greedy_exit_burst"]
+         "phase:first_packet", "teardown_right_behind_first_packet", "pool_node_wants_tunnels", "greedy_exit_burst", "data_over_half_built_circuit"]
 
 DESTROY_ID = 8
 CONTROL = ("CreatePayload", "CreatedPayload", "ExtendPayload", "ExtendedPayload")
@@ -103,6 +103,9 @@ def cases(tier: str, base_seed: int):  # noqa: ANN201
         for phase in ("ready", "transfer"):
             yield {"seed": base_seed, "knobs": {"lat_jit": 0.0}, "cfg": {"hops": hops, "who": "originator", "phase": phase}, "drops": [],
                    "extra": [{"kind": "greedy_exit"}]}
+            for who in ("originator", "crash"):
+                yield {"seed": base_seed, "knobs": {"lat_jit": 0.0}, "cfg": {"hops": hops, "who": who, "phase": phase}, "drops": [],
+                       "extra": [{"kind": "early_data"}]}
     # the first data packet chased by the teardown, with and without the removal grace period
     for hops in (1, 2):
         for who in ("originator", "exit"):
@@ -142,7 +145,7 @@ def cases(tier: str, base_seed: int):  # noqa: ANN201
                 {"kind": "crash", "node": rng.choice(["hop1", "exit"]), "t": rng.choice([0.2, 2.0, 6.0])},
                 {"kind": "jump", "node": rng.choice(["o", "hop1", "exit"]), "delta": rng.choice([-30.0, -5.0, 10.0, 120.0]),
                  "t": rng.choice([1.0, 5.0, 20.0])},
-                {"kind": "greedy"}, {"kind": "greedy_exit"}, {"kind": "join_limit", "limit": rng.choice([1, 2, 3])},
+                {"kind": "greedy"}, {"kind": "greedy_exit"}, {"kind": "early_data"}, {"kind": "join_limit", "limit": rng.choice([1, 2, 3])},
                 {"kind": "exit_wants_tunnels"}, {"kind": "chatty_outside", "every": rng.choice([3.0, 5.0, 15.0])},
                 {"kind": "hop_wants_tunnels", "node": rng.choice(["exit", "hop1"]), "t": rng.choice([0.3, 1.0, 2.5, 4.0])},
                 {"kind": "stall", "node": rng.choice(["hop1", "exit"]), "t": rng.choice([0.5, 3.0]), "d": rng.choice([2.0, 30.0])}]))
@@ -168,6 +171,9 @@ def execute(case: dict) -> dict:  # noqa: C901, PLR0915
     if cfg.get("rtd") is not None:
         settings["remove_tunnel_delay"] = cfg["rtd"]      # a configuration knob of the library (its own tests run with 0)
     lonely_exit = any(e["kind"] == "exit_wants_tunnels" for e in extra)
+    early_data = any(e["kind"] == "early_data" for e in extra)
+    if early_data:
+        settings["next_hop_timeout"] = 3
     # (with "exit_wants_tunnels" the world has a single exit node, which itself asks for tunnels it can never build)
     tw = TunnelWorld(c, n=hops + 3, exits=(hops + 1,) if lonely_exit else (hops + 1, hops + 2), settings=settings)
     drops = {tuple(d) for d in case.get("drops", [])}
@@ -184,6 +190,11 @@ def execute(case: dict) -> dict:  # noqa: C901, PLR0915
             kind = "relayed_handshake"      # extend / extended / created travelling through a relay while the circuit is built
         if kind is None or pkt.injected:
             return None
+        if early_data and kind == "CreatePayload" and pkt.src_node != "n0" and not st.get("early_dropped"):
+            # the first onward create of the first hop is lost: the circuit stays half-built until the retry
+            st["early_dropped"] = True
+            world.fault("targeted_drop")
+            return "drop"
         dstn = tw.node_of_ip(pkt.dst[0])
         key3 = (pkt.src_node, dstn.name if dstn else None, kind)
         k = counts[key3] = counts.get(key3, 0) + 1
@@ -259,6 +270,15 @@ def execute(case: dict) -> dict:  # noqa: C901, PLR0915
                     z.call(z.ov.remove_circuit, cz.circuit_id, "c09: application cancels", destroy=1)
             loop.call_later(wants.get("t", 1.0), cancel_fresh)
             loop.call_later(wants.get("t", 1.0) + 3.0, cancel_fresh)
+        if early_data and hops >= 2:
+            # the owner already uses the circuit while only its first hop is there (the extend is being retried): that hop EXITS the
+            # data, i.e. opens outside sockets, and is turned into a relay afterwards
+            def send_early() -> None:
+                if circ.hops and circ.state == "EXTENDING" and o.name not in loop.dead:
+                    world.probe("data_over_half_built_circuit")
+                    o.call(o.ov.send_data, circ.hop.address, circ.circuit_id, UDPv4Address(*w.address), ("0.0.0.0", 0), b"d" + b"5:early" + b"e")
+            loop.call_later(0.5, send_early)
+            loop.call_later(1.5, send_early)
         # seeded extra faults on their own timers
         for e in extra:
             if e["kind"] == "crash":
